@@ -481,6 +481,30 @@ Qed.
 
 End ProtocolProofs.
 
+(* the instance state after ANY history, repaired protocol: determined by the last successfully supplied expect *)
+Lemma repaired_state_determined :
+  forall (E S A L : Type) (dm : bool) (cfg : config) (O : oracles E S A L) (h : list (event E S)),
+  let m := run dm cfg O create_prog call_prog_repaired (init_state None) h in
+  st_created m = false /\
+  match last_supplied O None h with
+  | None => st_answers m = None /\ st_inferring m = false
+  | Some ev => exists a, validated O ev = Some a /\ st_answers m = Some a /\ st_inferring m = true
+  end.
+Proof.
+  intros E S A L dm cfg O h. simpl. rewrite last_supplied_step.
+  exact (repaired_run dm cfg O h None _ (init_inv_repaired O)).
+Qed.
+
+(* code as it stands: configured answers, the inferring flag and log_created are never changed by any history *)
+Lemma configured_state_untouched :
+  forall (E S A L : Type) (dm : bool) (cfg : config) (O : oracles E S A L) (a : A) (h : list (event E S)),
+  let m := run dm cfg O create_prog call_prog (init_state (Some a)) h in
+  st_answers m = Some a /\ st_inferring m = false /\ st_created m = false.
+Proof.
+  intros E S A L dm cfg O a h. simpl.
+  apply (configured_run dm cfg O call_prog a h); [left; reflexivity | repeat split].
+Qed.
+
  (* the configured-answers theorem instantiated at the program of the code as it stands *)
 Lemma configured_code :
   forall (E S A L : Type) (dm : bool) (cfg : config) (O : oracles E S A L) (a : A)
